@@ -5,10 +5,56 @@ from harness import common as C
 
 THEOREMS = 'Properties/C20.v'
 CLAIM = dict(
-    text='(filled in at the end of this file)',
-    note='', technique='')
-TRUSTED = []
-ASSUMPTIONS = []
+    text='Coq theorems about the model Model/SvdInc.v (svd_incomplete, statement by statement, consuming the model of '
+         'sample_tt in Model/Sample.v), for every d >= 2, every shape with positive mode sizes, every number of samples '
+         'm >= 1 and every cap r >= 1, over any commutative ring: '
+         '(1) incomplete_layout, full: C20_sample_tt_layout (for every generator whose choice returns indices below k '
+         'and whose shuffle keeps the entries, sample_tt produces the block layout: offsets idx, suffix counts idx_many, '
+         'block k = prefix ++ value :: suffix in the order value, prefix, suffix), C20_layout_shape (max(I)+1 is the '
+         'sampled shape), C20_layout_blocks (the matrix cut out for mode k holds the target at exactly those '
+         'multi-indices), C20_layout_step (each loop step succeeds and hands lstsq the left interface vectors of the '
+         'sampled prefixes and the rows of the block). '
+         '(2) incomplete_wf, full: C20_incomplete_wf (for arbitrary values, any svd returning a left factor with the '
+         'rows of its argument and ANY lstsq: no exception, the shape of the tensor, a chain of ranks 1..1, all ranks <= r). '
+         '(3) lstsq_exact, full, over the reals: C20_lstsq_exact / C20_lstsq_unique / C20_lstsq_min_solves (a minimiser '
+         'of the residual of a consistent system solves it exactly, uniquely under full column rank; so a least-squares '
+         'routine meets the contract lstsq_solves). '
+         '(4) incomplete_exact, conditional: C20_incomplete_exact_run (contract of lstsq needed only on the systems of '
+         'the run), C20_incomplete_recovers, C20_incomplete_recovers_rank, C20_incomplete_recovers_sampled (generator '
+         'and consumer composed; target a TT-tensor): if the skeleton steps lose nothing (U V = B, U = B Z on the '
+         'sample blocks they are applied to; this is where "cap >= rho" and a negligible e enter) and at every bond the '
+         'left interface matrix of the sampled prefixes has a left inverse and the right interface matrix of the '
+         'sampled suffixes has a right inverse (the algebraic content of "TT-rank rho, generic cores, mode sizes >= m"), '
+         'the result is well formed, has ranks <= r and equals the target at EVERY multi-index (exact arithmetic). '
+         'C20_skeleton_exact_from_svd / C20_incomplete_recovers_svd replace the skeleton hypothesis by the usual thin-SVD '
+         'contract (A = U diag(s) V, V V^T = I) plus "the singular values cut off by the rank rule vanish". '
+         '"For almost all tensors" is not formalised; rounding is not part of any theorem. '
+         'Non-vacuity: C20_*_example instantiate every hypothesis on a 2x2x2 rank-2 target over Qc. '
+         'Validated numerically only: that the hypotheses hold for random continuous cores and that binary64 rounding '
+         'keeps the error small (search: relative error <= 1e-6, observed <= 3e-11 on 3000 cases).',
+    note='The model is tied to svd.py / sample.py on every run: exact (Z) stream for sample_tt and for every block the '
+         'consumer cuts out of labelled values; binary64 stream with the recorded np.linalg.svd / lstsq results replayed '
+         'by call number, comparing error class, call sequence, svd arguments bitwise, lstsq arguments and cores to 1e-9; '
+         'malformed-argument stream (error classes). The contracts of svd and lstsq are validated on every recorded call.',
+    technique='Coq proof (induction over the modes with an interpolation invariant; ring algebra of finite sums; '
+              'Reals for least squares) + model/implementation correspondence with replayed LAPACK oracles + '
+              'property-level recovery search')
+TRUSTED = ['Coq 8.16.1 kernel; vm_compute for case evaluation and for the closed Qc example',
+           'hand-written model Model/SvdInc.v (+ Model/Sample.v sample_tt, Model/Svd.v matrix_skeleton, TT/Chain.v run) '
+           'tied to teneva by the correspondence streams of this check',
+           'oracle contracts (Section hypotheses): np.linalg.svd(full_matrices=False) returns a left factor with the rows '
+           'of its argument; np.linalg.lstsq returns a solution of a consistent system (derived over the reals from '
+           '"minimises the residual": C20_lstsq_min_solves); Generator.choice(k, s, replace=False) < k, shuffle keeps '
+           'the entries; all validated on every recorded call (residuals, normal equations)',
+           'NumPy semantics of slicing with a step, reshape(order=C), max(axis=0), array assignment G[:, i, :] = X, '
+           'as modelled; teneva.get(_to_item=False) = Chain.run [1]',
+           'Reals axioms of the standard library under the three lstsq theorems only']
+ASSUMPTIONS = ['r is integer-valued (int(r) = r); negative indices and ragged I are outside the model',
+               'exact recovery is a theorem about exact arithmetic under explicit algebraic hypotheses (no truncation '
+               'loss in the skeleton steps; one-sided inverses of the sampled interface matrices); "almost all tensors" '
+               'and the size of the rounding error are validated by the search, not proved',
+               'search domain: continuous random cores (normal, uniform) of scale 1, d in 2..5, rho <= m <= min n, '
+               'cap >= rho or default, int / None / Generator seeds; cap < rho only for shape and rank bound']
 TIME_LIMIT = {'quick': 900, 'thorough': 5400}
 
 TOL = 1e-9          # correspondence: computed floats (model order of operations vs BLAS)
@@ -198,6 +244,8 @@ def rand_tt(nprng, n, rho, kind='normal'):
     r = [1] + [rho] * (d - 1) + [1]
     if kind == 'int':
         return [nprng.integers(-3, 4, size=(r[k], n[k], r[k + 1])).astype(float) for k in range(d)]
+    if kind == 'uniform':
+        return [nprng.uniform(-1.0, 1.0, size=(r[k], n[k], r[k + 1])) for k in range(d)]
     return [nprng.normal(size=(r[k], n[k], r[k + 1])) for k in range(d)]
 
 
@@ -375,6 +423,14 @@ def corr_float(R, ctx, tn):
         cb = oracle_contract_violations(rec.calls)
         if cb:
             dist['contract_bad'].append([cfg, cb[:2]])
+        if cfg['fam'] not in ('noisy', 'cap_lt_rho', 'n_lt_m', 'int') and code == 0:
+            # hypothesis of the exactness theorem: the skeleton steps lose nothing (cap >= rho, e negligible)
+            for c, G in zip([c for c in rec.calls if c['kind'] == 'svd'], [None] * 99):
+                s_ = c['out'][1]
+                sc = max(float(s_[0]), 1e-300) if len(s_) else 1.0
+                tail = s_[cfg['rho']:]
+                dist['skeleton_tail_max'] = max(dist.get('skeleton_tail_max', 0.0),
+                                                float(np.sqrt(np.sum(tail ** 2)) / sc) if len(tail) else 0.0)
         terms.append(coq_term(I, y, idx, idm, cfg['e'], cfg['cap'], rec.calls))
         cmps.append(lambda v, code=code, Z=Z, rec=rec: compare_case(v, code, Z, rec))
         inputs.append(dict(fn='svd_incomplete', **cfg))
@@ -518,6 +574,13 @@ def correspondence(R, ctx):
 
 def _oracle(tn, p):
     """p: n, rho, m, cap, seed (tensor), sseed (sampler: int / None / 'gen:<int>'), kind, [e]; returns a failure or None"""
+    f = _oracle0(tn, p)
+    if f and f.get('samples') and not p.get('samples'):
+        f['input'] = dict(p, samples=f.pop('samples'))
+    return f
+
+
+def _oracle0(tn, p):
     n, rho, m, cap = p['n'], p['rho'], p['m'], p['cap']
     nprng = np.random.default_rng(p['seed'])
     Y = rand_tt(nprng, n, rho, p.get('kind', 'normal'))
@@ -526,9 +589,15 @@ def _oracle(tn, p):
     ss = p.get('sseed', p['seed'])
     if isinstance(ss, str) and ss.startswith('gen:'):
         ss = np.random.default_rng(int(ss[4:]))
+    samples = None
     try:
-        I, idx, idm = tn.sample_tt(n, m, seed=ss)
+        if p.get('samples'):
+            I, idx, idm = [np.array(x, dtype=int) for x in p['samples']]
+        else:
+            I, idx, idm = tn.sample_tt(n, m, seed=ss)
         I = np.asarray(I)
+        if ss is None:   # not reproducible from the seed: keep the drawn samples for the replay
+            samples = [I.tolist(), np.asarray(idx).tolist(), np.asarray(idm).tolist()]
         y = values(Y, I)
         args = [I, y, idx, idm]
         kw = {}
@@ -557,7 +626,7 @@ def _oracle(tn, p):
         err = float(np.linalg.norm(F - G) / max(np.linalg.norm(F), 1e-300))
         if err > PROP_TOL:
             return dict(what=f'recovered tensor differs from the rank-{rho} target: relative error {err:.3e}',
-                        input=p, got=err, expected=f'<= {PROP_TOL}')
+                        input=p, got=err, expected=f'<= {PROP_TOL}', samples=samples)
     return None
 
 
@@ -572,13 +641,17 @@ def search_cases(rng, deep):
                     n = [m + extra_n] * d
                     for cap in (rho, m, None, 1e12):
                         cases.append(dict(n=n, rho=rho, m=m, cap=cap, seed=rng.randrange(2 ** 31)))
+    for d in (2, 3, 4):   # cap below the rank: only shape, chain and rank bound are checked
+        for rho in (2, 3):
+            cases.append(dict(n=[rho + 1] * d, rho=rho, m=rho, cap=rho - 1, seed=rng.randrange(2 ** 31)))
+            cases.append(dict(n=[rho + 2] * d, rho=rho, m=rho + 1, cap=1, seed=rng.randrange(2 ** 31)))
     for k in range(len(cases)):
         if k % 5 == 1:
             cases[k]['sseed'] = None
         if k % 5 == 2:
             cases[k]['sseed'] = f'gen:{rng.randrange(2 ** 31)}'
         if k % 7 == 3:
-            cases[k]['kind'] = 'int'
+            cases[k]['kind'] = 'uniform'
     for _ in range(1500 if deep else 150):
         d = rng.randint(2, 5 if deep else 4)
         rho = rng.randint(1, 4)
